@@ -53,8 +53,28 @@ declarations:
   - decl: void fill(double * v +intent(out)+dimension(n), int n)
 splicer_code:
   c:
+    CXX_declarations: ["typedef int user_cxx_decl_t;"]
+    CXX_definitions: ["static int user_cxx_def = 1;"]
+    C_declarations: ["typedef int user_c_decl_t;"]
+    C_definitions: ["static int user_c_def = 2;"]
     function:
       plain_a: ["// user splicer", "return 7;"]
+    class:
+      Holder:
+        CXX_definitions: ["static int user_holder_def = 3;"]
+    namespace:
+      inner:
+        CXX_definitions: ["static int user_inner_def = 4;"]
+  f:
+    file_top: ["#define CPPIF_USER_LEVEL 2"]
+    module_use: ["use iso_c_binding, only : C_SIZE_T"]
+    module_top: ["integer, parameter :: USERCONST = 20"]
+    additional_interfaces: ["subroutine user_iface() bind(C)", "end subroutine user_iface"]
+    additional_functions: ["subroutine user_sub()", "end subroutine user_sub"]
+    namespace:
+      inner:
+        file_top: ["#define CPPIF_INNER_LEVEL 3"]
+        module_top: ["integer, parameter :: INNERCONST = 30"]
 """
 
 GLOBAL = ["debug", "doxygen", "show_splicer_comments"]
